@@ -16,15 +16,15 @@ TRACE_ALL = "planted,linear,prio,contra,malformed,caps,collapsed"
 
 PROPS = {
     "C12": {
-        "modules": ["Ezpz.Proofs.Assembly", "Ezpz.Proofs.AssemblyPerm", "Ezpz.Proofs.Rename", "Ezpz.Proofs.EquivHelpers", "Ezpz.Real.Equivariance", "Ezpz.Real.EquivarianceRenumber", "Ezpz.Real.GaussNewton", "Ezpz.Real.StopTests", "Ezpz.Properties.C10"],
+        "modules": ["Ezpz.Proofs.Assembly", "Ezpz.Proofs.AssemblyPerm", "Ezpz.Proofs.Rename", "Ezpz.Proofs.EquivHelpers", "Ezpz.Real.Equivariance", "Ezpz.Real.EquivarianceRenumber", "Ezpz.Proofs.Relabel", "Ezpz.Real.EquivarianceEntry", "Ezpz.Real.GaussNewton", "Ezpz.Real.StopTests", "Ezpz.Properties.C10"],
         "suites": [
             {"suite": "kernels", "quick": (150,), "thorough": (3000,)},
-            {"suite": "trace", "quick": (400, "planted,linear,prio,contra"), "thorough": (6000, "planted,linear,prio,contra,caps,conflict")},
+            {"suite": "trace", "quick": (400, "planted,linear,prio,contra,collapsed,pinned"), "thorough": (6000, "planted,linear,prio,contra,caps,conflict,collapsed,pinned")},
         ],
         "oracles": [
             {"bin": "oracle_c12", "quick": ("{seed}", "800"), "thorough": ("{seed}", "20000")},
         ],
-        "partial": ["solve_equivariant is proved per priority level over the reals (solveInner_perm, solveInner_renumber, with newtonStep/newtonLoop versions): reordering the requests gives the same values, iterations, solved priority and under-constrained set, the same unsatisfied requests and warnings up to order (equal after sorting: unsatisfied_sorted_eq); renumbering the variables gives the reordered values and otherwise the identical outcome; the solver hypotheses (RowPermSolve, ColPermSolve) are shown to hold for exact total solvers (rowPermSolve_of_exact, colPermSolve_of_exact via step_row_perm / step_col_perm / step_unique). Not invariant, and stated so (solveInner_perm_invalid): which request a MissingGuess error names when several requests have missing guesses (first in list order). The renumbering theorem is for solve (no analysis); the priority loop on top is C03/C10 (levels do not depend on the order: level_order_independent)",
+        "partial": ["solve_equivariant is proved per priority level over the reals (solveInner_perm, solveInner_renumber, with newtonStep/newtonLoop versions): reordering the requests gives the same values, iterations, solved priority and under-constrained set, the same unsatisfied requests and warnings up to order (equal after sorting: unsatisfied_sorted_eq); renumbering the variables gives the reordered values and otherwise the identical outcome; the solver hypotheses (RowPermSolve, ColPermSolve) are shown to hold for exact total solvers (rowPermSolve_of_exact, colPermSolve_of_exact via step_row_perm / step_col_perm / step_unique). Not invariant, and stated so (solveInner_perm_invalid): which request a MissingGuess error names when several requests have missing guesses (first in list order). At the public entry point (solveWithPriority_perm, solveWithPriority_renumber; solve without analysis): request ids are pure labels (solveInner_relabel_cases), enumerate of a permuted list is a permutation of the relabelled entries, the levels are equal, so both runs take the same decisions level by level: same values, iterations and solved priority, unsatisfied requests and warnings mapped through the position bijection (up to order), or the same failure",
                     "'up to numerical noise': summation order inside faer changes with row / column order; left to the oracle on the real code (known finding F16: on inconsistent rank-deficient systems one order converges and another does not)"],
         "assumptions": ["the LU answer is a parameter; over the reals it is characterised by IsStep, which is what the permutation theorems are about"],
         "rule": "planted and linear systems; all request permutations for <= 4 requests, random samples otherwise; random variable renumberings with the guess list reordered to match; verdicts, solved priority and under-constrained sets must match exactly through the permutation, values of constrained variables within 1e-6*scale, under-constrained ones within 1e-2*scale with every constraint still satisfied",
@@ -59,9 +59,9 @@ PROPS = {
         "rule": "problem texts: the repository's own test cases, generated valid texts (points, circles, arcs, all instruction forms), unsolvable and contradictory ones, and mutated / malformed ones; each is run through the release `ezpz` binary by path and by stdin, with and without --show-points; exit status, absence of panic and every stdout line are compared with the model's rendering of the library outcome computed in-process",
     },
     "C17": {
-        "modules": ["Ezpz.Proofs.Assembly", "Ezpz.Proofs.Union", "Ezpz.Real.Union", "Ezpz.Real.GaussNewton2", "Ezpz.Real.StopTests", "Ezpz.Properties.C06"],
+        "modules": ["Ezpz.Proofs.Assembly", "Ezpz.Proofs.Union", "Ezpz.Real.Union", "Ezpz.Real.UnionEntry", "Ezpz.Real.GaussNewton2", "Ezpz.Real.StopTests", "Ezpz.Properties.C06"],
         "suites": [
-            {"suite": "trace", "quick": (400, "planted,linear,prio,contra,pinned"), "thorough": (6000, "planted,linear,prio,contra,caps,conflict,pinned")},
+            {"suite": "trace", "quick": (400, "planted,linear,prio,contra,pinned,collapsed"), "thorough": (6000, "planted,linear,prio,contra,caps,conflict,pinned,collapsed")},
         ],
         "oracles": [
             {"bin": "oracle_c17", "quick": ("{seed}", "300", "12"), "thorough": ("{seed}", "3000", "200")},
@@ -74,7 +74,7 @@ PROPS = {
     "C05": {
         "modules": ["Ezpz.Properties.C05", "Ezpz.Real.Kernel", "Ezpz.Real.Dof"],
         "suites": [
-            {"suite": "trace", "quick": (500, "planted,linear,prio,contra"), "thorough": (8000, "planted,linear,prio,contra,caps,conflict,disparity")},
+            {"suite": "trace", "quick": (500, "planted,linear,prio,contra,collapsed,pinned"), "thorough": (8000, "planted,linear,prio,contra,caps,conflict,disparity,collapsed,pinned")},
         ],
         "oracles": [
             {"bin": "oracle_c05.py", "python": True, "quick": ("{seed}", "800"), "thorough": ("{seed}", "20000")},
@@ -89,7 +89,7 @@ PROPS = {
         "modules": ["Ezpz.Properties.C02", "Ezpz.Real.GaussNewton", "Ezpz.Real.GaussNewton3", "Ezpz.Real.LocalContraction"],
         "suites": [
             {"suite": "kernels", "quick": (150,), "thorough": (3000,)},
-            {"suite": "trace", "quick": (400, "planted,linear,prio"), "thorough": (6000, "planted,linear,prio,caps,disparity")},
+            {"suite": "trace", "quick": (400, "planted,linear,prio,collapsed,pinned"), "thorough": (6000, "planted,linear,prio,caps,disparity,collapsed,pinned")},
         ],
         "oracles": [
             {"bin": "oracle_c02", "quick": ("{seed}", "3000"), "thorough": ("{seed}", "200000")},
@@ -104,7 +104,7 @@ PROPS = {
         "modules": ["Ezpz.Properties.C04", "Ezpz.Real.GaussNewton", "Ezpz.Real.GaussNewton2", "Ezpz.Real.GaussNewton3", "Ezpz.Real.Linear", "Ezpz.Real.LinearConvergence"],
         "suites": [
             {"suite": "kernels", "quick": (150,), "thorough": (3000,)},
-            {"suite": "trace", "quick": (400, "linear,planted,contra,conflict"), "thorough": (6000, "linear,planted,contra,conflict,prio,caps")},
+            {"suite": "trace", "quick": (400, "linear,planted,contra,conflict,collapsed,pinned"), "thorough": (6000, "linear,planted,contra,conflict,prio,caps,collapsed,pinned")},
         ],
         "oracles": [
             {"bin": "oracle_c04.py", "python": True, "quick": ("{seed}", "400"), "thorough": ("{seed}", "8000")},
@@ -117,7 +117,7 @@ PROPS = {
     "C03": {
         "modules": ["Ezpz.Properties.C03"],
         "suites": [
-            {"suite": "trace", "quick": (400, "prio,contra,planted,linear,caps,malformed,conflict,disparity"), "thorough": (6000, "prio,contra,planted,linear,caps,malformed,conflict,disparity")},
+            {"suite": "trace", "quick": (400, "prio,contra,planted,linear,caps,malformed,conflict,disparity,resolve"), "thorough": (6000, "prio,contra,planted,linear,caps,malformed,conflict,disparity,resolve")},
         ],
         "oracles": [
             {"bin": "oracle_c03", "quick": ("{seed}", "1500", "0"), "thorough": ("{seed}", "20000", "1")},
@@ -128,7 +128,7 @@ PROPS = {
     "C14": {
         "modules": ["Ezpz.Properties.C14", "Ezpz.Real.Tolerance"],
         "suites": [
-            {"suite": "trace", "quick": (400, "caps,prio,planted,contra"), "thorough": (6000, "caps,prio,planted,contra,linear,malformed")},
+            {"suite": "trace", "quick": (400, "caps,prio,planted,contra,collapsed,pinned"), "thorough": (6000, "caps,prio,planted,contra,linear,malformed,collapsed,pinned")},
         ],
         "oracles": [
             {"bin": "oracle_c14", "quick": ("{seed}", "300"), "thorough": ("{seed}", "6000")},
@@ -141,7 +141,7 @@ PROPS = {
         "modules": ["Ezpz.Properties.C01", "Ezpz.Real.Meaning", "Ezpz.Real.MeaningArcs"],
         "suites": [
             {"suite": "kernels", "quick": (150,), "thorough": (3000,)},
-            {"suite": "trace", "quick": (300, "planted,contra,prio,linear,conflict,disparity,collapsed,pinned"), "thorough": (5000, "planted,contra,prio,linear,caps,malformed,conflict,disparity,collapsed,pinned")},
+            {"suite": "trace", "quick": (300, "planted,contra,prio,linear,conflict,disparity,collapsed,pinned,resolve"), "thorough": (5000, "planted,contra,prio,linear,caps,malformed,conflict,disparity,collapsed,pinned,resolve")},
         ],
         "oracles": [
             {"bin": "oracle_c01", "quick": ("{seed}", "600"), "thorough": ("{seed}", "20000")},
@@ -165,7 +165,7 @@ PROPS = {
     "C07": {
         "modules": ["Ezpz.Properties.C07"],
         "suites": [
-            {"suite": "trace", "quick": (400, "prio,contra,planted,malformed,conflict,collapsed,pinned"), "thorough": (6000, "prio,contra,planted,malformed,linear,caps,conflict,collapsed,pinned")},
+            {"suite": "trace", "quick": (400, "prio,contra,planted,malformed,conflict,collapsed,pinned,resolve"), "thorough": (6000, "prio,contra,planted,malformed,linear,caps,conflict,collapsed,pinned,resolve")},
         ],
         "oracles": [
             {"bin": "oracle_c07", "quick": ("{seed}", "1000"), "thorough": ("{seed}", "30000")},
@@ -176,10 +176,10 @@ PROPS = {
     "C10": {
         "modules": ["Ezpz.Properties.C10"],
         "suites": [
-            {"suite": "trace", "quick": (300, "planted,prio,contra,linear,collapsed,pinned"), "thorough": (5000, "planted,prio,contra,linear,caps,malformed,collapsed,pinned")},
+            {"suite": "trace", "quick": (300, "planted,prio,contra,linear,collapsed,pinned,resolve"), "thorough": (5000, "planted,prio,contra,linear,caps,malformed,collapsed,pinned,resolve")},
         ],
         "oracles": [
-            {"bin": "oracle_c10", "quick": ("{seed}", "800"), "thorough": ("{seed}", "20000"), "digest_twice": True},
+            {"bin": "oracle_c10", "quick": ("{seed}", "800"), "thorough": ("{seed}", "20000"), "digest_twice": True, "second_args": ["rev"]},
         ],
         "partial": ["analysis_only_adds_failure_partial: proved under 'the analysis succeeds at every attempted level'; without it the statement is false of the code (known finding F10)",
                     "bit-reproducibility of faer and libm across processes is sampled (digest of all results compared between two fresh processes), not proved"],
@@ -189,7 +189,7 @@ PROPS = {
     "C11": {
         "modules": ["Ezpz.Properties.C11"],
         "suites": [
-            {"suite": "trace", "quick": (300, "planted,linear,prio"), "thorough": (5000, "planted,linear,prio,caps,contra")},
+            {"suite": "trace", "quick": (300, "planted,linear,prio,resolve"), "thorough": (5000, "planted,linear,prio,caps,contra,resolve")},
         ],
         "oracles": [
             {"bin": "oracle_c11", "quick": ("{seed}", "600"), "thorough": ("{seed}", "20000")},
